@@ -323,6 +323,23 @@ func chunkings(n int, r *rng) []int {
 }
 
 func genC04(tier string, r *rng) {
+	// a size limit does not change what is delivered: frames of exactly MaxFrameSize bytes (first, continuation,
+	// interleaved control) are within it
+	for _, server := range []bool{true, false} {
+		st := sideOf(server)
+		for _, lim := range []int{1, 5, 125, 126, 300} {
+			pl := func(n int) []byte { return r.bytes(n) }
+			ctl := lim
+			if ctl > 125 {
+				ctl = 125
+			}
+			fs := []gframe{{false, 0, ws.OpBinary, pl(lim)}, {true, 0, ws.OpPing, pl(ctl)}, {false, 0, ws.OpContinuation, pl(lim - 1)},
+				{true, 0, ws.OpContinuation, pl(lim)}, {true, 0, ws.OpBinary, pl(lim)}}
+			enc := encodeStream(fs, server, r)
+			run(fmt.Sprintf("rdr %d max:%d,inter %s %d E nf ra st nf ra st", st, lim, hx(enc), lim%3))
+			run(fmt.Sprintf("rdr %d max:%d %s %d E nf r:%d ra st nf d st", st, lim, hx(enc), (lim+1)%3, lim))
+		}
+	}
 	nStreams := 250
 	if tier == "thorough" {
 		nStreams = 4000
